@@ -5,8 +5,8 @@ proof         : coq/prop/P_C17.v over model/M_ReqCaps.v -- the two middlewares +
                 an arbitrary well-founded interaction tree; zstandard / zlib themselves are not modelled).
 regenerated   : _DECOMPRESS_CHUNK_BYTES, the Encoding enum (order + wire names), every size guard / requested-size
                 expression of _MaxRequestBytesMiddleware, _decompress_body_zstd, _decompress_body_gzip, the arm order
-                of _CompressionMiddleware.process_request, the installation order in make_wsgi_app and two
-                source-shape flags (identity arm present, gzip end-of-stream test present) -> gen/G_ReqCaps.v;
+                of _CompressionMiddleware.process_request, the installation order in make_wsgi_app and three
+                source-shape flags (identity arm, gzip loop leaves at end-of-stream, gzip end-of-stream test) -> gen/G_ReqCaps.v;
                 tie/T_ReqCaps.v proves them equal to the modelled terms and restates the theorems over them.
 correspondence: the real Falcon app (make_wsgi_app) driven with hand-built WSGI environs (Content-Length honest /
                 lying / absent) and with environs built by waitress' own parser from raw chunked HTTP/1.1 requests;
